@@ -206,6 +206,7 @@ var yieldInHandle = true
 
 type logStore struct {
 	mu   sync.Mutex
+	gate func(rec LogRec) /* May park the logging goroutine (a slow log). */
 	recs []LogRec
 	json *bytes.Buffer /* Output of a real JSON handler, if wanted. */
 }
@@ -249,6 +250,9 @@ func (h *logHandler) Handle(_ context.Context, r slog.Record) error {
 		rec.Attrs[a.Key] = a.Value.String()
 		return true
 	})
+	if g := h.st.gate; nil != g {
+		g(rec)
+	}
 	if yieldInHandle {
 		runtime.Gosched()
 		runtime.Gosched()
